@@ -62,3 +62,37 @@ class WNode(Node):
 
     def task_outputs(self, dep: Callable[[Config], None]) -> Any:
         return dep(Wrap(src=self))
+
+
+# ---- classes for the deprecation scenarios (C20): the Old* classes are *not*
+# deprecated at import time; the simulation deprecates them between the run that
+# produced job directories and the repair (as the repository's tests do).
+
+
+class NewCfg(Config):
+    v: Param[int]
+
+
+class OldCfg(NewCfg):
+    __xpmid__ = "sim.simtasks.oldcfg"
+
+
+class CfgHolder(Config):
+    c: Param[NewCfg]
+
+
+class DLeaf(T):
+    pass
+
+
+class OldDLeaf(DLeaf):
+    __xpmid__ = "sim.simtasks.olddleaf"
+
+
+class CfgTask(T):
+    p: Param[Optional[NewCfg]] = None
+    pl: Param[List[NewCfg]] = []
+    ph: Param[Optional[CfgHolder]] = None
+
+
+DEPRECATABLE = [OldCfg, OldDLeaf]
